@@ -19,7 +19,7 @@ ASSUMPTIONS = ["identities compared at 1e-10", "the inversion clause is asserted
                "network clause uses vertex-transitive motifs (cliques, cycles) where memberships and edge ends are proportional"]
 HEADLINE = ["cases", "excess_checks", "inversion_checks", "inversion_not_applicable", "row_sum_checks", "network_checks", "mean_checks", "names_without_2-clique", "names_2-clique_not_first", "dict_order_differs_from_names", "matrices_configured_through_setters"]
 REQUIRED = {t: {"excess_checks": 100, "inversion_checks": 50, "row_sum_checks": 30, "network_checks": 10, "mean_checks": 100,
-                "names_without_2-clique": 30, "names_2-clique_not_first": 10, "dict_order_differs_from_names": 30} for t in ("quick", "thorough")}
+                "names_without_2-clique": 30, "names_2-clique_not_first": 10, "dict_order_differs_from_names": 30, "matrices_with_more_than_128_excess_classes": 2} for t in ("quick", "thorough")}
 TOL = 1e-10
 POOL = ["2-clique", "3-clique", "2-clique-blue", "2-clique-red", "a", "b", "tau", "x-y-z", "4-cycle", "diamond-outer"]
 
@@ -151,10 +151,16 @@ def check_row_sums(res, rng, T, names):
     import gcmpy
     from gcmpy import ToolsNames as TN
     mats, want = {}, {}
+    big = rng.random() < 0.06
+    if big:
+        # scale: a heterogeneous network's matrix has hundreds of excess classes, and it is filled in edge order, not row by row
+        res.count("matrices_with_more_than_128_excess_classes")
     for n in names:
         ks = list({tuple(rng.choice([0, 1, 2, 3]) for _ in range(T)) for _ in range(rng.randint(1, 6))})
+        if big:
+            ks = list({tuple(rng.randrange(0, 40) for _ in range(T)) for _ in range(rng.randint(140, 230))})
         m = defaultdict(Fraction)
-        for _ in range(rng.randint(1, 15)):
+        for _ in range(rng.randint(1, 15) if not big else 4 * len(ks)):
             a, b = rng.choice(ks), rng.choice(ks)
             w = Fraction(rng.randint(1, 9), 2)
             m[a + b] += w
